@@ -7,11 +7,12 @@ package main
 
 import (
 	"bufio"
-	"hash/fnv"
 	"fmt"
+	"hash/fnv"
 	"os"
 	"strconv"
 	"strings"
+	"time"
 )
 
 type prop struct {
@@ -83,6 +84,13 @@ func tier() string {
 	return t
 }
 
+func opTimeout() time.Duration {
+	if v, err := strconv.Atoi(os.Getenv("VERIF_OP_TIMEOUT")); err == nil && v > 0 {
+		return time.Duration(v) * time.Second
+	}
+	return 600 * time.Second
+}
+
 // safe runs f and maps a Go panic to the canonical token "panic".
 func safe(f func() string) (out string) {
 	defer func() {
@@ -125,7 +133,22 @@ func main() {
 			h := fnv.New32a()
 			h.Write([]byte(line))
 			collectRerun = h.Sum32()%4 == 0
-			out := safe(func() string { return p.drive(toks) })
+			// watchdog: real code that does not return (a deadlocked datasource, a join that never ends) must become a
+			// reported outcome, not a check that hangs. The op line gets `timeout`; the goroutines of this process may be
+			// wedged for good, so the remaining lines are not run here (`skipped-after-timeout`) and the process ends.
+			done := make(chan string, 1)
+			go func() { done <- safe(func() string { return p.drive(toks) }) }()
+			var out string
+			select {
+			case out = <-done:
+			case <-time.After(opTimeout()):
+				w.WriteString("timeout\n")
+				for sc.Scan() {
+					w.WriteString("skipped-after-timeout\n")
+				}
+				w.Flush()
+				os.Exit(0)
+			}
 			w.WriteString(out)
 			w.WriteByte('\n')
 		}
